@@ -173,6 +173,40 @@ def run_batches(rep, binaries, items, what, per):
     return n
 
 
+def conversion_layer(rep, binaries, tier, seed):
+    """String.to_num / String.from against NumFormat.tla without the lattice sweep: the boundary numbers (2^53 / 2^63 neighbours, powers of two
+    across the range, subnormals - their exact expansions, midpoints and quarter points are long digit strings), a few TLC-drawn random
+    patterns and every short text over a number alphabet.  Used by C13 ("conversion to and from numbers")."""
+    quick = tier == "quick"
+    nsh = 3 if quick else 6
+    jobs = []
+    with ThreadPoolExecutor(max_workers=8) as ex:
+        for s in range(nsh):
+            jobs.append(ex.submit(tlc_cases, rep, "cbounds%d" % s, part="bounds", shard=s, nshards=nsh))
+        for s in range(2 if quick else 8):
+            jobs.append(ex.submit(tlc_cases, rep, "crandom%d" % s, seed=seed * 100 + 50 + s, part="random", nrandom=6 if quick else 40))
+        alphabet = ['0', '1', '9', '.', 'e', '-', ' ', 'n']
+        jobs.append(ex.submit(tlc_cases, rep, "ctexts", part="texts", alphabet=", ".join('"%s"' % a for a in alphabet), maxtext=3 if quick else 4, timeout=20000))
+        results = [j.result() for j in jobs]
+    states = sum(d for _, d in results)
+    numbers = [c for cs, _ in results for c in cs if c["c"]["kind"] != "texts"]
+    texts = [c for cs, _ in results for c in cs if c["c"]["kind"] == "texts"]
+    if not numbers or not texts:
+        raise vlib.ToolError("NumFormat.tla produced no cases")
+    items = []
+    for c in numbers:
+        src, exp, integral = number_lines(c)
+        items.append((src, exp, integral, c))
+    n = run_batches(rep, binaries, items, "number <-> text", 2)
+    titems = []
+    for c in texts:
+        src, exp = text_lines(c)
+        titems.append((src, exp, None, c))
+    n += run_batches(rep, binaries, titems, "to_num text", 150)
+    log("[c19] conversion layer: %d numbers, %d texts, %d comparisons" % (len(numbers), len(texts), n))
+    return n, states, len(numbers), len(texts)
+
+
 def main(tier, seed):
     rep = Report(PROP, tier, seed, "model_checking")
     dev = build_harness("dev")
